@@ -55,7 +55,7 @@ def finish(ctx, mod):
     rec = ctx.rec
     known = core.known_lookup(ctx.prop_id)
     unlisted = 0
-    rdir = os.path.join(core.VERIF, "replays", ctx.prop_id)
+    rdir = os.path.join(os.environ.get("VERIF_REPLAY_DIR") or os.path.join(core.VERIF, "replays"), ctx.prop_id)
     for fp in sorted(rec.viol):
         n = rec.viol_n[fp]
         if fp in known:
